@@ -65,12 +65,14 @@ def add_loopless(model: "Model", zero_cutoff: Optional[float] = None) -> None:
             ub=0,
             name=f"on_off_{rxn.id}",
         )
-        # -(max_bound + 1) * a_i + 1 <= G_i <= -(max_bound + 1) * a_i + 1000
+        # -(max_g + 1) * a_i + 1 <= G_i <= -(max_g + 1) * a_i + max_g
+        # The range of the driving forces must not shrink with the flux bounds.
+        max_g = max(max_bound, 1000.0)
         delta_g = prob.Variable(f"delta_g_{rxn.id}")
         delta_g_range = prob.Constraint(
-            delta_g + (max_bound + 1) * indicator,
+            delta_g + (max_g + 1) * indicator,
             lb=1,
-            ub=max_bound,
+            ub=max_g,
             name=f"delta_g_range_{rxn.id}",
         )
         to_add.extend([indicator, on_off_constraint, delta_g, delta_g_range])
